@@ -8,11 +8,14 @@
 //                                     bounds_*, maximize/minimize bound, relation is_included /
 //                                     is_disjoint / saturates) is false of the denoted sets
 //   C03.unobservable.<inst>.<op>      constraints()/ascii_dump throw, or NaN in the matrix
+//   C03.view.<inst>.<op>[:class]      constraints() of a result cuts points of the result's own matrix
+//   C03.crash.<inst>.<op>[:class]     the call kills the process (probed in a forked child)
 //   C03.exception / C03.hang          unexpected exception / logical-time budget exceeded
 //   C04.exact.<inst>.<op>[:class]     (mpq only) operation the statement calls exact is not
 //   C04.best.<inst>.<op>              (mpq only) result is not the smallest element containing T
 //   C04.pred.<inst>.<query>           (mpq only) predicate / query differs from the LP answer
-// Instantiation: --kv inst=<short|long name>|all  (all: rotates by case index).
+// Instantiation: --kv inst=<short|long name>|all|rational  (all / rational rotate by case index;
+// default: all, or rational (= the two mpq_class instantiations) when --prop C04).
 // Profiles: default | limits (every case draws type-limit bounds) | exact (more queries/twins).
 #include "shapeseq.hh"
 
@@ -153,6 +156,7 @@ static std::string mag_class(const std::vector<const Sys*>& args, const std::vec
   for (size_t i = 0; i < all.size(); ++i) { Q v = abs(all[i]); if (v > M) M = v; if (v != 0 && (!has_tiny || v < tiny)) { tiny = v; has_tiny = true; } }
   Q P = 0; for (size_t i = 0; i < coefs.size(); ++i) P += abs(coefs[i]);
   if (coefs.empty()) P = 2;   // lattice operations and closure add two bounds
+  if (M < 1) M = 1;
   Q est = P * M + abs(inhomo);
   if (t.bits) { Q L(pow2z(t.bits - 1) - 2); return est > L ? "overflow" : "inrange"; }
   int emax = t.fdigits == 24 ? 128 : t.fdigits == 53 ? 1024 : 16384;
@@ -166,7 +170,7 @@ static Q bound_of(const Constraint& c) { Q am = 0; for (dimension_type i = 0; i 
 
 // ---------- the oracles ----------
 // exact result T (exists-form) must be inside the returned element
-static bool check_sound(const std::string& op, const std::string& cls, const ESys& T, const Sys& RC, const std::string& ctx) {
+static bool check_sound(const std::string& op, const std::string& cls, const ESys& T, const Sys& RC, const std::string& ctx, const char* mon = "C03.sound") {
   checked(); hx::count("sound_checks");
   int nv = T.n + T.aux;
   for (size_t i = 0; i < RC.size(); ++i) {
@@ -178,7 +182,7 @@ static bool check_sound(const std::string& op, const std::string& cls, const ESy
         Vec wv(w.begin(), w.begin() + T.n);
         // independent re-validation by plain arithmetic
         if (!ref::sat(T.s, w) || ref::sat(RC[i], wv)) { violation("harness.bug.lost_witness", op); return false; }
-        violation(key("C03.sound", op, cls), "point " + cut(show(wv), 300) + " of the exact result violates result constraint " + cut(show(RC[i]), 300) + "; " + cut(ctx));
+        violation(key(mon, op, cls), "point " + cut(show(wv), 300) + " of the exact result violates result constraint " + cut(show(RC[i]), 300) + "; " + cut(ctx));
         return false;
       }
     }
@@ -230,16 +234,20 @@ static bool verify(const std::string& op, const std::string& cls03, const std::s
   return check_best(mode == EXACT ? "C04.exact" : "C04.best", op, cls04, pieces, n, RC, ctx);
 }
 
-// integer points of S in a window; false if unbounded / too many
+// integer points of S: all of them when S is bounded and small, otherwise those of a
+// 10^n window around a feasible point (still points that an integer-aware operator must keep)
 static bool int_points(int n, const Sys& S, std::vector<Vec>& pts, long cap = 3000) {
   pts.clear();
-  if (!ref::feasible(n, S)) return true;
+  Vec w;
+  if (!ref::feasible(n, S, &w)) return true;
   std::vector<mpz_class> lo(n), hi(n); mpz_class vol = 1;
   for (int i = 0; i < n; ++i) {
     Vec a(n); a[i] = 1; ref::SupResult u = ref::supremum(n, S, a); a[i] = -1; ref::SupResult l = ref::supremum(n, S, a);
-    if (!u.bounded || !l.bounded) return false;
-    mpz_fdiv_q(hi[i].get_mpz_t(), u.sup.get_num_mpz_t(), u.sup.get_den_mpz_t());
-    Q lv = -l.sup; mpz_cdiv_q(lo[i].get_mpz_t(), lv.get_num_mpz_t(), lv.get_den_mpz_t());
+    mpz_class c; mpz_fdiv_q(c.get_mpz_t(), w[i].get_num_mpz_t(), w[i].get_den_mpz_t());
+    mpz_class wl = c - 4, wh = c + 5;
+    if (u.bounded) mpz_fdiv_q(hi[i].get_mpz_t(), u.sup.get_num_mpz_t(), u.sup.get_den_mpz_t()); else hi[i] = wh;
+    if (l.bounded) { Q lv = -l.sup; mpz_cdiv_q(lo[i].get_mpz_t(), lv.get_num_mpz_t(), lv.get_den_mpz_t()); } else lo[i] = wl;
+    if (hi[i] - lo[i] > 12) { if (lo[i] < wl) lo[i] = wl; if (hi[i] > wh) hi[i] = wh; hx::count("int_window_clamped"); }
     if (hi[i] < lo[i]) return true;
     vol *= (hi[i] - lo[i] + 1);
     if (vol > cap) return false;
@@ -283,9 +291,11 @@ struct StepCtx {
   Shape& A() { return *pool[ai]; } Shape& B() { return *pool[bi]; }
 };
 static void qvec(const Linear_Expression& e, int n, const Coefficient& d, std::vector<Q>& coefs, Q& inh) {
+  // products are formed before the division by the denominator (and preimages multiply by it)
   Vec a; Q b; ref::conv(e, n, a, b); Q dq = ref::toQ(d);
-  for (int i = 0; i < n; ++i) if (a[i] != 0) coefs.push_back(a[i] / dq);
-  if (abs(b / dq) > inh) inh = abs(b / dq);
+  for (int i = 0; i < n; ++i) if (a[i] != 0) coefs.push_back(a[i]);
+  if (abs(dq) != 1) coefs.push_back(dq);
+  if (abs(b) > inh) inh = abs(b);
 }
 // is x_v' = e/d a relation the domain expresses exactly?
 static bool expressible(Kind k, int n, int v, const Vec& ea, const Q& d) {
@@ -508,6 +518,13 @@ static bool mutate(StepCtx& c) {
   Sys RC;
   if (!observe(A, RC, op, cls03)) return false;
   if ((int) A.dim() != n) { violation(key("C03.sound", op, "dimension"), "space dimension changed"); return false; }
+  if (!g.ti.exact) { // the client-visible constraints() of the result must not cut points of the result's own matrix
+    Sys VC;
+    try { SP c2(A.clone()); VC = ref::conv(c2->constraints(), n); }
+    catch (const std::exception& e) { violation(key("C03.unobservable", op, cls03), std::string("constraints() of a copy threw ") + typeid(e).name() + ": " + e.what()); return false; }
+    hx::count("view_checks");
+    if (!check_sound(op, cls03, ref::esys_of(RC, n), VC, "constraints() of the result excludes points of the result's own matrix (stale reduction data); matrix=" + cut(show(RC), 500) + " constraints()=" + cut(show(VC), 500) + " A=" + cut(show(SA), 400), "C03.view")) return false;
+  }
   std::string ctx = "A=" + cut(show(SA), 500) + (usesB ? " B=" + cut(show(SB), 500) : "") + " R=" + cut(show(RC), 500);
   if (!pieces.empty()) ok = verify(op, cls03, cls04, mode, pieces, n, RC, ctx);
   if (ok && extra) ok = extra(RC);
@@ -601,7 +618,7 @@ static bool queries(StepCtx& c) {
       std::string d = str(e) + "; " + ctxA;
       if (!ne) break;   // silent on empty elements (bounds_*), and a sound shape may not know it is empty
       if (!(ok = pred(mx ? "bounds_from_above" : "bounds_from_below", bf, s.bounded, true, d))) return;
-      if (!(ok = pred(qn + ".status", o1, s.bounded, true, d))) return;
+      if (!(ok = pred(qn + "_with_point.status", o1, s.bounded, true, d))) return;
       if (!(ok = pred(qn + ".status", o2, s.bounded, true, d))) return;
       Q rv = mx ? Q(s.sup + eb) : Q(-s.sup + eb);
       std::string vcls; { std::vector<Q> cf; Q ih = 0; qvec(e, n, Coefficient(1), cf, ih); vcls = mag_class(std::vector<const Sys*>{ &SA }, cf, ih); }
@@ -780,7 +797,7 @@ static bool constructors(StepCtx& c) {
     for (int i = 0; i < k; ++i) {
       Linear_Expression e; for (int j = 0; j < n; ++j) if (!coin(35)) e += rnd(-4, 4) * Variable(j);
       Gen x; x.v.assign(n, Q(0));
-      if (i == 0) { int dv = rnd(1, 3); e += 0 * Variable(n > 0 ? n - 1 : 0); if (n == 0) e = Linear_Expression(0); gr.add_grid_generator(grid_point(e, dv)); x.kind = Gen::POINT; for (int j = 0; j < n; ++j) x.v[j] = ref::toQ(e.coefficient(Variable(j))) / dv; d << " point(" << str(e) << ")/" << dv; }
+      if (i == 0) { int dv = rnd(1, 3); gr.add_grid_generator(grid_point(e, dv)); x.kind = Gen::POINT; for (int j = 0; j < n; ++j) x.v[j] = ref::toQ(e.coefficient(Variable(j))) / dv; d << " point(" << str(e) << ")/" << dv; }
       else {
         if (n == 0) continue;
         if (e.all_homogeneous_terms_are_zero()) e += Variable(rnd(0, n - 1));
@@ -999,7 +1016,8 @@ int main(int argc, char** argv) {
   std::vector<Entry>& t = table();
   std::sort(t.begin(), t.end(), [](const Entry& a, const Entry& b) { return a.short_name < b.short_name; });
   return hx::main_loop(argc, argv, [&](uint64_t) {
-    std::string inst = hx::opt().gets("inst", "all");
+    // C04 is stated over unbounded rationals only: default to the two mpq instantiations for --prop C04
+    std::string inst = hx::opt().gets("inst", hx::opt().prop == "C04" ? "rational" : "all");
     const Entry* e;
     if (inst == "all") e = &t[(size_t) hx::st().cur_case % t.size()];
     else if (inst == "rational") { std::vector<const Entry*> r; for (size_t i = 0; i < t.size(); ++i) if (t[i].ti.exact) r.push_back(&t[i]); e = r[(size_t) hx::st().cur_case % r.size()]; }
